@@ -148,7 +148,7 @@ def random_alignment(rng, names, kind, ncols, ambig=0.0, motif_len=1, gc=1):
                     else:
                         p = rng.randrange(3)
                         for _try in range(10):
-                            a = rng.choice("RYWSKMBDHVN")
+                            a = rng.choice("RYWSKMBDHVN?")  # a partly missing word ('A?C') is compatible with 4 words, not all
                             cand = c[:p] + a + c[p + 1 :]
                             # keep at least one compatible sense codon and no compatible stop (a symbol that can
                             # only be a stop, or may be one, is outside what the property quantifies over)
@@ -553,6 +553,8 @@ def build_lf(prob, tree_newick=None, aln=None, sm=None):
         kw.update(ordered_param="rate", distribution="gamma")
     if prob.get("gc", 1) != 1:
         kw["gc"] = prob["gc"]
+    if prob.get("recode_gaps") is False:
+        kw["recode_gaps"] = False  # gaps / '?' are then resolved against the word alphabet instead of being rewritten to N
     sm = sm or make_model(model, **kw)
     # zero lengths in a newick string are replaced by default_length (documented), so the tree is given
     # placeholder lengths and every length is then set explicitly
